@@ -113,9 +113,13 @@ def roundtrip_monitor(alphabet):
         want = model.contents()
         other_impl = 'py' if ctx.impl == 'c' else 'c'
 
+        lone = C.has_lone_leaf_node(c) if tree else False
+        if lone:
+            g['lone_leaf_node_states'] += 1
+
         def bad(site, cls, detail, **kw):
-            ex.report(dict(prop='C06', sig=ex.sig(site, cls, **kw), case=ex.case(hist, (site,)),
-                           detail=detail))
+            ex.report(dict(prop='C06', sig=ex.sig(site, cls, lone=lone, **kw),
+                           case=ex.case(hist, (site,)), detail=detail))
 
         def verify(site, obj, expect_impl=None, shared=False):
             """obj must be an equal, sound container of the expected implementation."""
@@ -202,7 +206,7 @@ def roundtrip_monitor(alphabet):
             if t3 is t:
                 bad(name, 'same-object', 'returned the original')
                 continue
-            verify(name, t3, ctx.impl)
+            verify(name, t3, None)
 
         # 5. usability of a reloaded copy: every op once
         if p2 is not None:
